@@ -3,11 +3,14 @@
 //! Oracle: `models::tex_lexer` (transcription of TeX §343–§356) against `texlang::token::lexer::Lexer`
 //! driven through its public API with a harness-owned `lexer::Config` (category table + end-line
 //! character supplied by the case), in both `report_end_of_line` modes, with `Tracer::trace` applied
-//! to every delivered token.
+//! to every delivered token. `vm_path` drives the repository's own `lexer::Config` (the blanket
+//! `impl<T: TexlangState> Config for T` with `codes::cat_code` and `endlinechar::end_line_char`)
+//! through a VM whose tables are set by `\catcode` / `\endlinechar` assignments in TeX source.
+//! `long_inputs` looks at stack use (recursion per `^^` reduction) and very long lines.
 
 use crate::engine::*;
 use crate::models::tex_lexer as model;
-use crate::models::tex_lexer::{Deviations, Item, SourceLine};
+use crate::models::tex_lexer::{Deviations, Item, Reading, SourceLine};
 use proptest::prelude::*;
 use serde::{Deserialize, Serialize};
 use std::collections::BTreeSet;
@@ -110,13 +113,38 @@ struct Obs {
 const DECOY: &str = "?decoy one\n?decoy two \n?";
 const FILE_NAME: &str = "c03.tex";
 
-/// How the configuration may change while the source is being read.
-struct Switch<'a> {
-    after_calls: usize,
-    second: &'a Cfg,
+/// How the configuration changes while the source is being read: from call number `.0` on (calls
+/// counted from 0) configuration `.1` applies, until a later step takes over. Ascending.
+type Steps<'a> = [(usize, &'a Cfg)];
+
+fn cfg_at<'a>(first: &'a Cfg, steps: &Steps<'a>, calls: usize) -> &'a Cfg {
+    let mut c = first;
+    for (after, cfg) in steps {
+        if calls >= *after {
+            c = cfg;
+        }
+    }
+    c
 }
 
-fn observe(src: &str, cfg: &Cfg, switch: Option<&Switch>, report: bool, tracer: &mut trace::Tracer, interner: &mut CsNameInterner) -> Result<Vec<Obs>, String> {
+fn tok_of(t: &Token, interner: &CsNameInterner) -> Tok {
+    match t.value() {
+        Value::CommandRef(CommandRef::ControlSequence(n)) => Tok::Cs(interner.resolve(n).unwrap().to_string()),
+        Value::CommandRef(CommandRef::ActiveCharacter(c)) => Tok::Char(c, model::ACTIVE),
+        v => {
+            let (c, k) = v.char_and_cat_code().unwrap();
+            Tok::Char(c, k as u8)
+        }
+    }
+}
+
+fn trace_tuple(tr: trace::SourceCodeTrace) -> (usize, usize, String, String) {
+    let origin_ok = tr.origin == trace::Origin::File(FILE_NAME.into());
+    let content = if origin_ok { tr.line_content } else { format!("<origin {:?}> {}", tr.origin, tr.line_content) };
+    (tr.line_number, tr.index, content, tr.value)
+}
+
+fn observe(src: &str, cfg: &Cfg, steps: &Steps, report: bool, tracer: &mut trace::Tracer, interner: &mut CsNameInterner) -> Result<Vec<Obs>, String> {
     tracer.register_source_code(None, trace::Origin::Terminal, DECOY);
     let range = tracer.register_source_code(None, trace::Origin::File(FILE_NAME.into()), src);
     tracer.register_source_code(None, trace::Origin::Terminal, DECOY);
@@ -125,64 +153,58 @@ fn observe(src: &str, cfg: &Cfg, switch: Option<&Switch>, report: bool, tracer: 
     let mut out: Vec<Obs> = vec![];
     let mut calls = 0usize;
     loop {
-        let c: &Cfg = match switch {
-            Some(s) if calls >= s.after_calls => s.second,
-            _ => cfg,
-        };
+        let c: &Cfg = cfg_at(cfg, steps, calls);
         calls += 1;
         let r = lx.next(c, interner, report);
         let (tok, token) = match r {
-            lexer::Result::Token(t) => {
-                let tok = match t.value() {
-                    Value::CommandRef(CommandRef::ControlSequence(n)) => Tok::Cs(interner.resolve(n).unwrap().to_string()),
-                    Value::CommandRef(CommandRef::ActiveCharacter(c)) => Tok::Char(c, model::ACTIVE),
-                    v => {
-                        let (c, k) = v.char_and_cat_code().unwrap();
-                        Tok::Char(c, k as u8)
-                    }
-                };
-                (tok, Some(t))
-            }
+            lexer::Result::Token(t) => (tok_of(&t, interner), Some(t)),
             lexer::Result::InvalidCharacter(c, key) => (Tok::Invalid(c), Some(Token::new_letter(c, key))),
             lexer::Result::EndOfLine => (Tok::EndOfLine, None),
             lexer::Result::EndOfInput => break,
         };
-        let trace = token.map(|t| {
-            let tr = tracer.trace(t, interner);
-            let origin_ok = tr.origin == trace::Origin::File(FILE_NAME.into());
-            let content = if origin_ok { tr.line_content } else { format!("<origin {:?}> {}", tr.origin, tr.line_content) };
-            (tr.line_number, tr.index, content, tr.value)
-        });
+        let trace = token.map(|t| trace_tuple(tracer.trace(t, interner)));
         out.push(Obs { tok, trace });
         if out.len() > bound {
             return Err(format!("lexer delivered more than {} items for a source of {} characters (no termination)", bound, src.chars().count()));
         }
     }
     // The end of input is stable.
+    let last = cfg_at(cfg, steps, calls);
     for _ in 0..2 {
-        if !matches!(lx.next(cfg, interner, report), lexer::Result::EndOfInput) {
+        if !matches!(lx.next(last, interner, report), lexer::Result::EndOfInput) {
             return Err("Lexer::next delivered something after EndOfInput".to_string());
         }
     }
     Ok(out)
 }
 
-fn model_items(src: &str, cfg: &Cfg, switch: Option<&Switch>, report: bool, dev: Deviations) -> (Vec<Item>, model::Scanner) {
-    let mut s = model::Scanner::new(src, dev);
+struct ModelRun {
+    items: Vec<Item>,
+    sc: model::Scanner,
+    /// Line in the buffer (0 = none yet) when each step took effect.
+    step_lines: Vec<usize>,
+    calls: usize,
+}
+
+fn model_items(src: &str, cfg: &Cfg, steps: &Steps, report: bool, dev: Deviations, reading: Reading) -> ModelRun {
+    let mut s = model::Scanner::with_reading(src, dev, reading);
     let mut out = vec![];
     let mut calls = 0usize;
+    let mut step_lines = vec![usize::MAX; steps.len()];
     loop {
-        let c: &Cfg = match switch {
-            Some(sw) if calls >= sw.after_calls => sw.second,
-            _ => cfg,
-        };
+        for (i, (after, _)) in steps.iter().enumerate() {
+            if calls == *after {
+                step_lines[i] = s.current_line();
+            }
+        }
+        let c: &Cfg = cfg_at(cfg, steps, calls);
         calls += 1;
         match s.next(c, report) {
             Item::EndOfInput => break,
             it => out.push(it),
         }
     }
-    (out, s)
+    ModelRun { items: out, sc: s, step_lines, calls }
 }
 
 fn show_tok(t: &Tok) -> String {
@@ -212,54 +234,88 @@ fn value_of(t: &Tok) -> String {
     }
 }
 
+/// What a comparison saw besides agreement (class counters).
+#[derive(Default, Clone, Copy)]
+struct Seen {
+    /// A `^^` result traced to the column of its first / of its last source character.
+    reduced_at_first: u32,
+    reduced_at_last: u32,
+    /// The appended end-line character traced to the trimmed length / to the line terminator
+    /// (only counted when the two differ).
+    endline_at_trimmed: u32,
+    endline_at_terminator: u32,
+    /// `SourceCodeTrace::value` is not the token's text (not demanded by the property).
+    value_differs: u32,
+    /// The run agreed with TeX only under an alternative reading (see `model::Reading`).
+    crlf_alternative: u32,
+    eol_before_load_alternative: u32,
+}
+
+fn check_trace(i: usize, w: &Tok, span: &model::Span, line: &SourceLine, tr: &(usize, usize, String, String), seen: &mut Seen) -> Result<(), String> {
+    let (ln, col, content, value) = tr;
+    if *ln != span.line {
+        return Err(format!("trace of item {} ({}) reports line {}, the token started on line {}", i, show_tok(w), ln, span.line));
+    }
+    let text_ok = *content == line.text || (line.cr_stripped && Some(content.as_str()) == line.text.strip_suffix('\r'));
+    if !text_ok {
+        return Err(format!("trace of item {} ({}) on line {} reports line text {:?}, the source line is {:?}", i, show_tok(w), ln, content, line.text));
+    }
+    if !span.allows(*col) {
+        let kind = if span.end_line && !span.reduced {
+            "the appended end-line character: trimmed length or position of the line terminator"
+        } else if span.reduced {
+            "a ^^ reduction: column of the first or of the last source character of the form"
+        } else {
+            "an ordinary source character: exact column"
+        };
+        return Err(format!("trace of item {} ({}) on line {} {:?} reports column {}, allowed {:?} ({})", i, show_tok(w), ln, line.text, col, span.cols_sorted(), kind));
+    }
+    if span.reduced {
+        if *col == span.cols[0] {
+            seen.reduced_at_first += 1;
+        } else {
+            seen.reduced_at_last += 1;
+        }
+    } else if span.end_line && span.cols[0] != span.cols[1] {
+        if *col == span.cols[0] {
+            seen.endline_at_trimmed += 1;
+        } else {
+            seen.endline_at_terminator += 1;
+        }
+    }
+    if *value != value_of(w) {
+        seen.value_differs += 1;
+    }
+    Ok(())
+}
+
 /// Compare one run of the implementation with one run of the model: tokens one for one, then the
 /// trace of every token.
-fn compare(items: &[Item], lines: &[SourceLine], obs: &[Obs]) -> Result<(), String> {
+fn compare(items: &[Item], lines: &[SourceLine], obs: &[Obs], seen: &mut Seen) -> Result<(), String> {
     let want: Vec<(Tok, Option<model::Span>)> = items.iter().map(item_tok).collect();
     let same = want.len() == obs.len() && want.iter().zip(obs).all(|(w, o)| w.0 == o.tok);
     if !same {
         let first = want.iter().zip(obs).position(|(w, o)| w.0 != o.tok).unwrap_or(want.len().min(obs.len()));
+        let cut = |v: Vec<String>| {
+            if v.len() > 80 {
+                format!("{} … ({} items)", v[..80].join(" "), v.len())
+            } else {
+                v.join(" ")
+            }
+        };
         return Err(format!(
             "tokens differ at item {}\n  TeX:  {}\n  impl: {}",
             first,
-            want.iter().map(|w| show_tok(&w.0)).collect::<Vec<_>>().join(" "),
-            obs.iter().map(|o| show_tok(&o.tok)).collect::<Vec<_>>().join(" ")
+            cut(want.iter().map(|w| show_tok(&w.0)).collect::<Vec<_>>()),
+            cut(obs.iter().map(|o| show_tok(&o.tok)).collect::<Vec<_>>())
         ));
     }
+    let mut local = *seen;
     for (i, (w, o)) in want.iter().zip(obs).enumerate() {
-        let (Some(span), Some((ln, col, content, value))) = (&w.1, &o.trace) else { continue };
-        let line = &lines[span.line - 1];
-        if *ln != span.line {
-            return Err(format!("trace of item {} ({}) reports line {}, the token started on line {}", i, show_tok(&w.0), ln, span.line));
-        }
-        if *content != line.text {
-            return Err(format!("trace of item {} ({}) on line {} reports line text {:?}, the source line is {:?}", i, show_tok(&w.0), ln, content, line.text));
-        }
-        if *col < span.lo || *col > span.hi {
-            let kind = if span.end_line {
-                "the appended end-line character: any column in [trimmed length, line length]"
-            } else if span.reduced {
-                "a ^^ reduction: any column of the reduced characters"
-            } else {
-                "an ordinary source character: exact column"
-            };
-            return Err(format!(
-                "trace of item {} ({}) on line {} {:?} reports column {}, allowed {}..={} ({})",
-                i,
-                show_tok(&w.0),
-                ln,
-                line.text,
-                col,
-                span.lo,
-                span.hi,
-                kind
-            ));
-        }
-        let v = value_of(&w.0);
-        if *value != v {
-            return Err(format!("trace of item {} reports value {:?}, expected {:?}", i, value, v));
-        }
+        let (Some(span), Some(tr)) = (&w.1, &o.trace) else { continue };
+        check_trace(i, &w.0, span, &lines[span.line - 1], tr, &mut local)?;
     }
+    *seen = local;
     Ok(())
 }
 
@@ -268,30 +324,94 @@ struct Runs {
     obs: [Vec<Obs>; 2],
 }
 
-fn run_impl(src: &str, cfg: &Cfg, switch: Option<&Switch>) -> Result<Result<Runs, String>, panics::PanicInfo> {
+fn run_impl(src: &str, cfg: &Cfg, steps: &Steps) -> Result<Result<Runs, String>, panics::PanicInfo> {
     panics::catch(|| {
         let mut tracer = trace::Tracer::default();
         let mut interner = CsNameInterner::default();
-        let a = observe(src, cfg, switch, false, &mut tracer, &mut interner)?;
-        let b = observe(src, cfg, switch, true, &mut tracer, &mut interner)?;
+        let a = observe(src, cfg, steps, false, &mut tracer, &mut interner)?;
+        let b = observe(src, cfg, steps, true, &mut tracer, &mut interner)?;
         Ok(Runs { obs: [a, b] })
     })
 }
 
-fn compare_both(src: &str, cfg: &Cfg, switch: Option<&Switch>, runs: &Runs, dev: Deviations) -> Result<(), String> {
-    for (m, report) in [false, true].into_iter().enumerate() {
-        let (items, sc) = model_items(src, cfg, switch, report, dev);
-        compare(&items, &sc.lines, &runs.obs[m]).map_err(|e| format!("[report_end_of_line={}] {}", report, e))?;
-        if report {
-            // The markers are the model's line boundaries: one between any two consecutive lines.
-            let eols = runs.obs[m].iter().filter(|o| o.tok == Tok::EndOfLine).count();
-            let n = sc.lines.len();
-            if eols != n.saturating_sub(1) {
-                return Err(format!("[report_end_of_line=true] {} EndOfLine markers for {} lines", eols, n));
-            }
+/// The readings under which a run may be judged: the default first; the alternatives only where
+/// they can differ from it (a CR LF pair in the source; `report_end_of_line` with a configuration
+/// that changes while the source is read).
+fn readings(src: &str, report: bool, dynamic: bool) -> Vec<Reading> {
+    let mut v = vec![Reading::default()];
+    if src.contains("\r\n") {
+        v.push(Reading { crlf_is_line_end: true, ..Reading::default() });
+    }
+    if report && dynamic {
+        for r in v.clone() {
+            v.push(Reading { eol_before_load: true, ..r });
+        }
+    }
+    v
+}
+
+fn compare_mode(src: &str, cfg: &Cfg, steps: &Steps, report: bool, dev: Deviations, reading: Reading, obs: &[Obs], seen: &mut Seen, pre: Option<&ModelRun>) -> Result<(), String> {
+    // `pre`: the model's run for (report_end_of_line=false, no deviation, default reading), if the caller has it.
+    let fresh;
+    let run = match pre {
+        Some(r) if !report && dev == Deviations::default() && reading == Reading::default() => r,
+        _ => {
+            fresh = model_items(src, cfg, steps, report, dev, reading);
+            &fresh
+        }
+    };
+    compare(&run.items, &run.sc.lines, obs, seen).map_err(|e| format!("[report_end_of_line={}] {}", report, e))?;
+    if report {
+        // The markers are the model's line boundaries: one between any two consecutive lines.
+        let eols = obs.iter().filter(|o| o.tok == Tok::EndOfLine).count();
+        let n = run.sc.lines.len();
+        if eols != n.saturating_sub(1) {
+            return Err(format!("[report_end_of_line=true] {} EndOfLine markers for {} lines", eols, n));
         }
     }
     Ok(())
+}
+
+fn compare_both(src: &str, cfg: &Cfg, steps: &Steps, runs: &Runs, dev: Deviations, seen: &mut Seen, pre: Option<&ModelRun>) -> Result<(), String> {
+    // One reading of the line terminator for the whole case; the reported message is that of the
+    // default reading.
+    let crlf_options: &[bool] = if src.contains("\r\n") { &[false, true] } else { &[false] };
+    let mut first_err: Option<String> = None;
+    'crlf: for &crlf in crlf_options {
+        let mut local = *seen;
+        for (m, report) in [false, true].into_iter().enumerate() {
+            let mut err: Option<String> = None;
+            let mut ok = false;
+            for reading in readings(src, report, !steps.is_empty()).into_iter().filter(|r| r.crlf_is_line_end == crlf) {
+                match compare_mode(src, cfg, steps, report, dev, reading, &runs.obs[m], &mut local, pre) {
+                    Ok(()) => {
+                        ok = true;
+                        if reading.eol_before_load {
+                            local.eol_before_load_alternative += 1;
+                        }
+                        if reading.crlf_is_line_end && report {
+                            local.crlf_alternative += 1;
+                        }
+                        break;
+                    }
+                    Err(e) => {
+                        if err.is_none() {
+                            err = Some(e);
+                        }
+                    }
+                }
+            }
+            if !ok {
+                if first_err.is_none() {
+                    first_err = err;
+                }
+                continue 'crlf;
+            }
+        }
+        *seen = local;
+        return Ok(());
+    }
+    Err(first_err.unwrap())
 }
 
 const FLAGS: [(&str, Deviations); 3] = [
@@ -301,9 +421,13 @@ const FLAGS: [(&str, Deviations); 3] = [
     ("flag:no_hex_caret", Deviations { no_hex_caret: true, nonascii_caret_swallowed: true }),
 ];
 
+fn show_cats(cats: &[(char, u8)]) -> String {
+    cats.iter().map(|(ch, k)| format!("{:?}={}", ch, k)).collect::<Vec<_>>().join(" ")
+}
+
 fn describe(c: &LexCase) -> String {
-    let cats: Vec<String> = c.cats.iter().map(|(ch, k)| format!("{:?}={}", ch, k)).collect();
-    format!("src={:?} endlinechar={:?} catcodes(non-plain)=[{}]", c.src, c.endline, cats.join(" "))
+    let src: String = if c.src.chars().count() > 400 { format!("{}… ({} chars)", c.src.chars().take(400).collect::<String>(), c.src.chars().count()) } else { c.src.clone() };
+    format!("src={:?} endlinechar={:?} catcodes(non-plain)=[{}]", src, c.endline, show_cats(&c.cats))
 }
 
 fn has_double_superscript(src: &str, cfg: &Cfg) -> bool {
@@ -315,6 +439,40 @@ fn has_double_superscript(src: &str, cfg: &Cfg) -> bool {
         prev = Some(ch);
     }
     false
+}
+
+fn classify_stats(st: &model::Stats, case: &mut Case) {
+    case.class_if(st.reductions > 0, "^^ reduced");
+    case.class_if(st.hex_reductions > 0, "^^ hex reduced");
+    case.class_if(st.reductions_in_name > 0, "^^ reduced inside cs name");
+    case.class_if(st.reductions_first_of_name > 0, "^^ reduced as first char of cs name");
+    case.class_if(st.reductions_using_end_line_char > 0, "^^ reduction consumes end-line char");
+    case.class_if(st.nested_reductions > 0, "^^ nested reduction");
+    case.class_if(st.max_reduction_chain >= 3, "^^ reduction chain of depth >= 3");
+    case.class_if(st.max_reduction_chain >= 8, "^^ reduction chain of depth >= 8");
+    case.class_if(st.nonascii_third > 0, "^^ followed by char >=128");
+    case.class_if(st.unreduced_double_at_line_end > 0, "^^ at very end of line (not reducible)");
+    case.class_if(st.reduced_to_escape > 0, "^^ result is an escape char");
+    case.class_if(st.hex_result_ge_128 > 0, "^^xy result >= 0x80 (two-byte rewrite) outside a name");
+    case.class_if(st.hex_result_ge_128_in_name > 0, "^^xy result >= 0x80 (two-byte rewrite) inside a name");
+    case.class_if(st.hex_second_digit_is_end_line_char > 0, "end-line char is the second hex digit of ^^xy");
+    case.class_if(st.reduction_multibyte_sup > 0, "^^ reduction with a non-ASCII superscript char");
+    case.class_if(st.in_name_reduction_multibyte_sup > 0, "^^ reduction on the look-ahead path (after the first name char) with a non-ASCII superscript char");
+    case.class_if(st.par_tokens > 0, "\\par from end of line");
+    case.class_if(st.space_from_eol > 0, "space from end of line");
+    case.class_if(st.eol_dropped_in_skip_blanks > 0, "end of line dropped in state S");
+    case.class_if(st.comments > 0, "comment");
+    case.class_if(st.ignored > 0, "ignored char");
+    case.class_if(st.invalid > 0, "invalid char");
+    case.class_if(st.empty_cs > 0, "empty cs name");
+    case.class_if(st.multi_letter_cs > 0, "multi-letter cs");
+    case.class_if(st.longest_name >= 8, "cs name of >= 8 chars");
+    case.class_if(st.cs_takes_end_line_char > 0, "cs name ends with end-line char");
+    case.class_if(st.discarded_tail_nonempty > 0, "comment / cat-5 char discards a non-empty rest of line");
+    case.class_if(st.discarded_tail_nonascii > 0, "discarded rest of line contains non-ASCII");
+    case.class_if(st.discarded_tail_nonascii_then_more_lines > 0, "discarded rest of line contains non-ASCII and a line follows");
+    case.class_if(st.items_after_nonascii_line > 0, "item traced on a line after a line with non-ASCII chars");
+    case.class_if(st.items_after_trimmed_line > 0, "item traced on a line after a line with trailing blanks");
 }
 
 fn classify(c: &LexCase, cfg: &Cfg, st: &model::Stats, lines: &[SourceLine], case: &mut Case) -> bool {
@@ -331,6 +489,8 @@ fn classify(c: &LexCase, cfg: &Cfg, st: &model::Stats, lines: &[SourceLine], cas
     case.class_if(lines.iter().any(|l| l.trimmed_chars == 0), "blank line");
     case.class_if(lines.len() >= 2, "lines>=2");
     case.class_if(lines.len() >= 4, "lines>=4");
+    case.class_if(lines.iter().any(|l| l.chars >= 40), "line of >= 40 chars");
+    case.class_if(c.src.contains("\r\n"), "CR LF in the source");
     case.class(match c.endline {
         None => "endlinechar none",
         Some('\r') => "endlinechar CR",
@@ -347,39 +507,53 @@ fn classify(c: &LexCase, cfg: &Cfg, st: &model::Stats, lines: &[SourceLine], cas
     if let Some('\r') = c.endline {
         case.class_if(cfg.code('\r') != model::END_OF_LINE, "CR end-line char is not cat 5");
     }
+    case.class_if(c.endline == Some('\n'), "endlinechar LF");
+    case.class_if(matches!(c.endline, Some('\0') | Some('\u{7f}')), "endlinechar NUL or DEL");
     case.class_if(cfg.code('^') != model::SUPERSCRIPT && c.src.contains('^'), "^ is not superscript");
     case.class_if(cfg.code(' ') != model::SPACE && c.src.contains(' '), "space is not cat 10");
     case.class_if(cfg.code('\\') != model::ESCAPE && c.src.contains('\\'), "backslash is not escape");
-    case.class_if(st.reductions > 0, "^^ reduced");
-    case.class_if(st.hex_reductions > 0, "^^ hex reduced");
-    case.class_if(st.reductions_in_name > 0, "^^ reduced inside cs name");
-    case.class_if(st.reductions_first_of_name > 0, "^^ reduced as first char of cs name");
-    case.class_if(st.reductions_using_end_line_char > 0, "^^ reduction consumes end-line char");
-    case.class_if(st.nested_reductions > 0, "^^ nested reduction");
-    case.class_if(st.nonascii_third > 0, "^^ followed by char >=128");
-    case.class_if(st.unreduced_double_at_line_end > 0, "^^ at very end of line (not reducible)");
-    case.class_if(st.reduced_to_escape > 0, "^^ result is an escape char");
-    case.class_if(st.par_tokens > 0, "\\par from end of line");
-    case.class_if(st.space_from_eol > 0, "space from end of line");
-    case.class_if(st.eol_dropped_in_skip_blanks > 0, "end of line dropped in state S");
-    case.class_if(st.comments > 0, "comment");
-    case.class_if(st.ignored > 0, "ignored char");
-    case.class_if(st.invalid > 0, "invalid char");
-    case.class_if(st.empty_cs > 0, "empty cs name");
-    case.class_if(st.multi_letter_cs > 0, "multi-letter cs");
-    case.class_if(st.cs_takes_end_line_char > 0, "cs name ends with end-line char");
+    classify_stats(st, case);
     table_differs || double_sup || non_ascii || trailing
 }
 
-fn oracle(ctx: &Ctx, c: &LexCase, switch: Option<(&Cfg, usize)>, case: &mut Case) -> Verdict {
+fn classify_seen(seen: &Seen, case: &mut Case) {
+    case.class_if(seen.reduced_at_first > 0, "trace of a ^^ result: column of the first char of the form");
+    case.class_if(seen.reduced_at_last > 0, "trace of a ^^ result: column of the last char of the form");
+    case.class_if(seen.endline_at_trimmed > 0, "trace of the end-line char on a line with trailing blanks: trimmed length");
+    case.class_if(seen.endline_at_terminator > 0, "trace of the end-line char on a line with trailing blanks: line terminator");
+    case.class_if(seen.value_differs > 0, "trace value is not the token text (not demanded)");
+    case.class_if(seen.crlf_alternative > 0, "agrees only when the CR of CR LF is part of the line terminator");
+    case.class_if(seen.eol_before_load_alternative > 0, "report mode agrees only when EndOfLine comes before the next line is read");
+}
+
+fn oracle(ctx: &Ctx, c: &LexCase, steps: &Steps, case: &mut Case) -> Verdict {
     let cfg = Cfg::new(&c.cats, c.endline);
-    let sw = switch.map(|(second, after_calls)| Switch { after_calls, second });
-    let sw = sw.as_ref();
     case.note = Some(describe(c));
     // Classes come from the TeX model alone, whatever the verdict will be.
-    let (_, sc) = model_items(&c.src, &cfg, sw, false, Deviations::default());
-    let nt = classify(c, &cfg, &sc.stats, &sc.lines, case);
-    let runs = match run_impl(&c.src, &cfg, sw) {
+    let run = model_items(&c.src, &cfg, steps, false, Deviations::default(), Reading::default());
+    let nt = classify(c, &cfg, &run.sc.stats, &run.sc.lines, case);
+    for (i, l) in run.step_lines.iter().enumerate() {
+        if *l != usize::MAX {
+            case.class_if(steps[i].0 >= 12, "configuration changes after >= 12 calls");
+            case.class_if(*l >= 3, "configuration changes on line >= 3");
+        }
+    }
+    // The quantifier has ASCII end-line characters only; anything else is run and compared, but a
+    // disagreement is not a verdict.
+    let outside = c.endline.map(|e| !e.is_ascii()).unwrap_or(false) || steps.iter().any(|(_, s)| s.endline.map(|e| !e.is_ascii()).unwrap_or(false));
+    let verdict = oracle_inner(ctx, c, &cfg, steps, nt, case, &run);
+    if outside {
+        case.class("non-ASCII end-line char (outside the quantifier; compared, not judged)");
+        return match verdict {
+            Verdict::Fail(_) => Verdict::Skip("non-ASCII end-line character: outside the quantifier, and the implementation disagrees with the Unicode reading"),
+            v => v,
+        };
+    }
+    verdict
+}
+
+fn oracle_inner(ctx: &Ctx, c: &LexCase, cfg: &Cfg, steps: &Steps, nt: bool, case: &mut Case, pre: &ModelRun) -> Verdict {
+    let runs = match run_impl(&c.src, cfg, steps) {
         Err(info) => {
             let sig = info.signature();
             if ctx.known(&sig) {
@@ -390,8 +564,12 @@ fn oracle(ctx: &Ctx, c: &LexCase, switch: Option<(&Cfg, usize)>, case: &mut Case
         Ok(Err(m)) => return Verdict::Fail(format!("{}\n{}", m, describe(c))),
         Ok(Ok(r)) => r,
     };
-    match compare_both(&c.src, &cfg, sw, &runs, Deviations::default()) {
-        Ok(()) => Verdict::pass(nt),
+    let mut seen = Seen::default();
+    match compare_both(&c.src, cfg, steps, &runs, Deviations::default(), &mut seen, Some(pre)) {
+        Ok(()) => {
+            classify_seen(&seen, case);
+            Verdict::pass(nt)
+        }
         Err(msg) => {
             // Listed deviations, smallest subsets first; excused only if the deviating model
             // reproduces the implementation exactly (tokens and traces, both modes).
@@ -401,7 +579,7 @@ fn oracle(ctx: &Ctx, c: &LexCase, switch: Option<(&Cfg, usize)>, case: &mut Case
                 if !listed {
                     continue;
                 }
-                match compare_both(&c.src, &cfg, sw, &runs, dev) {
+                match compare_both(&c.src, cfg, steps, &runs, dev, &mut Seen::default(), None) {
                     Ok(()) => return Verdict::Known(sig.to_string()),
                     Err(e) => tried.push_str(&format!("\n(not explained by listed deviation {:?}: {})", dev, e.lines().next().unwrap_or(""))),
                 }
@@ -423,7 +601,7 @@ fn golden_oracle(ctx: &Ctx, g: &model::Golden, case: &mut Case) -> Verdict {
     let c = LexCase { src: g.input.clone(), cats: g.overrides.clone(), endline: g.end_line_char };
     let cfg = Cfg::new(&c.cats, c.endline);
     // 1. The model must reproduce the golden tokens (calibration of the oracle itself).
-    let (items, sc) = model_items(&c.src, &cfg, None, true, Deviations::default());
+    let ModelRun { items, sc, .. } = model_items(&c.src, &cfg, &[], true, Deviations::default(), Reading::default());
     let want: Vec<Tok> = g
         .expected
         .iter()
@@ -443,7 +621,7 @@ fn golden_oracle(ctx: &Ctx, g: &model::Golden, case: &mut Case) -> Verdict {
             describe(&c)
         ));
     }
-    // 2. The golden trace keys (absolute character offsets) must lie inside the model's spans.
+    // 2. The golden trace keys (absolute character offsets) must be columns the model allows.
     for (e, (t, span)) in g.expected.iter().zip(&got) {
         let key = match e {
             model::Gold::Character(_, _, k) | model::Gold::ControlSequence(_, k) => *k as usize,
@@ -451,21 +629,21 @@ fn golden_oracle(ctx: &Ctx, g: &model::Golden, case: &mut Case) -> Verdict {
         };
         let span = span.unwrap();
         let base = sc.lines[span.line - 1].start_char;
-        if key < base + span.lo || key > base + span.hi {
+        if key < base || !span.allows(key - base) {
             return Verdict::Fail(format!(
-                "CALIBRATION: golden `{}` pins key {} for {}, the model allows {}..={}\n{}",
+                "CALIBRATION: golden `{}` pins key {} for {}, the model allows columns {:?} of the line starting at character {}\n{}",
                 g.name,
                 key,
                 show_tok(t),
-                base + span.lo,
-                base + span.hi,
+                span.cols_sorted(),
+                base,
                 describe(&c)
             ));
         }
     }
     case.class("golden replayed through the model");
     // 3. The ordinary oracle on the same input.
-    oracle(ctx, &c, None, case)
+    oracle(ctx, &c, &[], case)
 }
 
 // ------------------------------------------------------------------------------------------------
@@ -535,10 +713,17 @@ enum Piece {
     Ch(char),
     /// S S tail
     Caret(usize),
-    /// S S p(S) S tail where p(S) is S±64: a reduction whose result is S again (nested).
-    Nested(usize, bool),
+    /// A chain of `depth` reductions whose result is S again (S S p(S), then S p(S) …, p(S) = S±64
+    /// or the two hex digits of S), then S tail: the last reduction takes `tail`. `place`: 0 = in
+    /// running text, 1 = directly after an escape char (first char of a name), 2 = after an
+    /// escape char and one letter (look-ahead path).
+    Chain { tail: usize, hex: bool, depth: u8, place: u8 },
     /// escape, letters, optional caret form inside / after the name, optional blanks
     Cs { letters: Vec<u8>, caret_at: Option<(u8, usize)>, blanks: u8 },
+    /// escape and 5..45 letters
+    LongCs(u8),
+    /// a run of 3..40 blanks / of other characters (long lines)
+    Run(u8, u8),
     TrailingBlanks(u8),
     BlankLines(u8),
     Comment(u8),
@@ -549,11 +734,14 @@ fn piece() -> impl Strategy<Value = Piece> {
     prop_oneof![
         40 => weighted_char().prop_map(Piece::Ch),
         14 => (0..CARET_TAILS.len()).prop_map(Piece::Caret),
-        3 => ((0..CARET_TAILS.len()), any::<bool>()).prop_map(|(t, h)| Piece::Nested(t, h)),
+        3 => ((0..CARET_TAILS.len()), any::<bool>(), 0u8..3).prop_map(|(tail, hex, place)| Piece::Chain { tail, hex, depth: 1, place }),
+        2 => ((0..CARET_TAILS.len()), any::<bool>(), 2u8..14, 0u8..3).prop_map(|(tail, hex, depth, place)| Piece::Chain { tail, hex, depth, place }),
         10 => (proptest::collection::vec(0u8..6, 0..4), proptest::option::weighted(0.5, (0u8..5, 0..CARET_TAILS.len())), 0u8..3).prop_map(|(letters, caret_at, blanks)| Piece::Cs { letters, caret_at, blanks }),
+        1 => (5u8..46).prop_map(Piece::LongCs),
+        1 => (0u8..6, 3u8..41).prop_map(|(k, n)| Piece::Run(k, n)),
         6 => (0u8..4).prop_map(Piece::TrailingBlanks),
         4 => (0u8..4).prop_map(Piece::BlankLines),
-        3 => (0u8..4).prop_map(Piece::Comment),
+        3 => (0u8..5).prop_map(Piece::Comment),
         2 => Just(Piece::CrLf),
     ]
 }
@@ -568,19 +756,26 @@ fn render(pieces: &[Piece], sup: char, out: &mut String) {
                 out.push(sup);
                 out.push_str(CARET_TAILS[*t]);
             }
-            Piece::Nested(t, hex) => {
-                out.push(sup);
-                out.push(sup);
-                let u = sup as u32;
-                if *hex && u < 256 {
-                    out.push_str(&format!("{:02x}", u));
-                } else if u < 128 {
-                    out.push(char::from_u32(if u < 64 { u + 64 } else { u - 64 }).unwrap());
-                } else {
-                    out.push('^');
+            Piece::Chain { tail, hex, depth, place } => {
+                match place {
+                    1 => out.push('\\'),
+                    2 => out.push_str("\\b"),
+                    _ => {}
                 }
                 out.push(sup);
-                out.push_str(CARET_TAILS[*t]);
+                for _ in 0..*depth {
+                    out.push(sup);
+                    let u = sup as u32;
+                    if *hex && u < 256 {
+                        out.push_str(&format!("{:02x}", u));
+                    } else if u < 128 {
+                        out.push(char::from_u32(if u < 64 { u + 64 } else { u - 64 }).unwrap());
+                    } else {
+                        out.push('^');
+                    }
+                }
+                out.push(sup);
+                out.push_str(CARET_TAILS[*tail]);
             }
             Piece::Cs { letters, caret_at, blanks } => {
                 out.push('\\');
@@ -605,9 +800,21 @@ fn render(pieces: &[Piece], sup: char, out: &mut String) {
                     out.push(' ');
                 }
             }
+            Piece::LongCs(n) => {
+                out.push('\\');
+                for i in 0..*n {
+                    out.push(LETTERS[(i as usize * 7 + *n as usize) % 5]);
+                }
+            }
+            Piece::Run(k, n) => {
+                let ch = [' ', ' ', 'a', '5', 'é', '\t'][*k as usize];
+                for _ in 0..*n {
+                    out.push(ch);
+                }
+            }
             Piece::TrailingBlanks(k) => out.push_str([" \n", "  \n", " \t\n", "   \n"][*k as usize]),
             Piece::BlankLines(k) => out.push_str(["\n\n", "\n \n", "\n  \n\n", " \n\n\n"][*k as usize]),
-            Piece::Comment(k) => out.push_str(["%", "% x", "%\n", "% ^^M \n"][*k as usize]),
+            Piece::Comment(k) => out.push_str(["%", "% x", "%\n", "% ^^M \n", "% é日 \n"][*k as usize]),
             Piece::CrLf => out.push_str("\r\n"),
         }
     }
@@ -620,7 +827,8 @@ enum EndLine {
     Letter(u8),
     Caret,
     Ascii(u8),
-    NonAscii,
+    /// NUL, DEL, LF, space, a hex digit
+    Boundary(u8),
 }
 
 fn endline_strategy() -> impl Strategy<Value = EndLine> {
@@ -630,7 +838,7 @@ fn endline_strategy() -> impl Strategy<Value = EndLine> {
         2 => (0u8..4).prop_map(EndLine::Letter),
         2 => Just(EndLine::Caret),
         3 => (0u8..128).prop_map(EndLine::Ascii),
-        1 => Just(EndLine::NonAscii),
+        1 => (0u8..6).prop_map(EndLine::Boundary),
     ]
 }
 
@@ -660,11 +868,22 @@ fn universe(src: &str, endline: Option<char>) -> BTreeSet<char> {
             }
         }
     }
+    // the end-line character as second hex digit after the last character of any line
+    if let Some(e) = endline {
+        let hex = |x: char| matches!(x, '0'..='9' | 'a'..='f');
+        let h = |x: char| if x <= '9' { x as u32 - 48 } else { x as u32 - 87 };
+        for line in src.split('\n') {
+            if let Some(c) = line.trim_end_matches(' ').chars().last() {
+                if hex(c) && hex(e) {
+                    u.insert(char::from_u32(16 * h(c) + h(e)).unwrap());
+                }
+            }
+        }
+    }
     u
 }
 
-fn build_case(pieces: &[Piece], sup_alias: Option<usize>, sel: &[u8], salt: u8, endline: &EndLine, ending: u8) -> LexCase {
-    let sup = sup_alias.map(|i| SUP_ALIASES[i]).unwrap_or('^');
+fn render_source(pieces: &[Piece], sup: char, ending: u8) -> String {
     let mut src = String::new();
     render(pieces, sup, &mut src);
     match ending {
@@ -680,28 +899,43 @@ fn build_case(pieces: &[Piece], sup_alias: Option<usize>, sel: &[u8], salt: u8, 
         }
         _ => {}
     }
-    let endline = match endline {
-        EndLine::None => None,
-        EndLine::Cr => Some('\r'),
-        EndLine::Letter(k) => Some(['a', 'M', 'B', 'e'][*k as usize]),
-        EndLine::Caret => Some(sup),
-        EndLine::Ascii(b) => Some(*b as char),
-        EndLine::NonAscii => Some('é'),
-    };
+    src
+}
+
+/// The category codes of the characters of `universe`: plain TeX with p=0.6, uniform 0..15 with
+/// p=0.4 (decided per character by `sel`/`salt`); an alias superscript character is mostly made
+/// category 7. Only codes that differ from plain TeX are listed unless `explicit_all`.
+fn table_for(universe: &BTreeSet<char>, sup_alias: Option<char>, sel: &[u8], salt: u8, explicit_all: bool) -> Vec<(char, u8)> {
     let mut cats = vec![];
-    for c in universe(&src, endline) {
+    for &c in universe {
         let s = sel[hash_slot(c, salt)];
         let mut k = plain_default(c);
         if s >= 154 {
             k = (((s - 154) as u32 * 16) / 102) as u8;
         }
-        if sup_alias.is_some() && c == sup && s < 230 {
+        if sup_alias == Some(c) && s < 230 {
             k = model::SUPERSCRIPT;
         }
-        if k != plain_default(c) {
+        if explicit_all || k != plain_default(c) {
             cats.push((c, k));
         }
     }
+    cats
+}
+
+fn build_case(pieces: &[Piece], sup_alias: Option<usize>, sel: &[u8], salt: u8, endline: &EndLine, ending: u8) -> LexCase {
+    let sup = sup_alias.map(|i| SUP_ALIASES[i]).unwrap_or('^');
+    let src = render_source(pieces, sup, ending);
+    let endline = match endline {
+        EndLine::None => None,
+        EndLine::Cr => Some('\r'),
+        EndLine::Letter(k) => Some(['a', 'M', 'B', 'e'][*k as usize]),
+        // the quantifier has ASCII end-line characters only
+        EndLine::Caret => Some(if sup.is_ascii() { sup } else { '^' }),
+        EndLine::Ascii(b) => Some(*b as char),
+        EndLine::Boundary(k) => Some(['\0', '\u{7f}', '\n', ' ', 'a', '5'][*k as usize]),
+    };
+    let cats = table_for(&universe(&src, endline), sup_alias.map(|_| sup), sel, salt, false);
     LexCase { src, cats, endline }
 }
 
@@ -725,29 +959,109 @@ pub struct SwitchCase {
     pub second_cats: Vec<(char, u8)>,
     pub second_endline: Option<char>,
     pub after_calls: usize,
+    /// Further changes, ascending in `after_calls` (absolute call numbers).
+    #[serde(default)]
+    pub more: Vec<SwitchStep>,
+}
+
+#[derive(Clone, Debug, Serialize, Deserialize)]
+pub struct SwitchStep {
+    pub after_calls: usize,
+    pub cats: Vec<(char, u8)>,
+    pub endline: Option<char>,
+}
+
+/// Number of `next` calls the TeX model makes for the source under the given steps.
+fn model_calls(c: &LexCase, steps: &[(usize, Cfg)]) -> usize {
+    let cfg = Cfg::new(&c.cats, c.endline);
+    let st: Vec<(usize, &Cfg)> = steps.iter().map(|(a, c)| (*a, c)).collect();
+    model_items(&c.src, &cfg, &st, false, Deviations::default(), Reading::default()).calls
 }
 
 fn switch_strategy() -> impl Strategy<Value = SwitchCase> {
     (
-        proptest::collection::vec(piece(), 0..14),
+        proptest::collection::vec(piece(), 0..18),
         proptest::option::weighted(0.25, 0..SUP_ALIASES.len()),
-        proptest::collection::vec(any::<u8>(), 64),
-        proptest::collection::vec(any::<u8>(), 64),
+        proptest::collection::vec(proptest::collection::vec(any::<u8>(), 64), 4),
         any::<u8>(),
-        endline_strategy(),
-        endline_strategy(),
+        proptest::collection::vec(endline_strategy(), 4),
         0u8..4,
-        0usize..12,
+        // number of changes (1..=3), "the last change goes back to the first configuration",
+        // position of every change as a fraction of the calls that remain
+        (prop_oneof![5 => Just(1usize), 3 => Just(2usize), 2 => Just(3usize)], any::<bool>(), proptest::collection::vec(0u32..1000, 3)),
     )
-        .prop_map(|(pieces, alias, sel1, sel2, salt, e1, e2, ending, after_calls)| {
-            let first = build_case(&pieces, alias, &sel1, salt, &e1, ending);
-            // Second table: half of the slots keep the first table's choice.
-            let sel_b: Vec<u8> = sel1.iter().zip(&sel2).enumerate().map(|(i, (a, b))| if i % 2 == 0 { *a } else { *b }).collect();
-            let second = build_case(&pieces, alias, &sel_b, salt, &e2, ending);
-            // The second table must cover the characters the second end-line char can produce, too;
-            // build_case already derives its universe from (src, endline).
-            SwitchCase { first, second_cats: second.cats, second_endline: second.endline, after_calls }
+        .prop_map(|(pieces, alias, sels, salt, ends, ending, (n_steps, back, fracs))| {
+            let first = build_case(&pieces, alias, &sels[0], salt, &ends[0], ending);
+            let mut steps: Vec<(usize, Cfg)> = vec![];
+            let mut raw: Vec<SwitchStep> = vec![];
+            let mut from = 0usize;
+            for i in 0..n_steps {
+                // Half of the slots keep the first table's choice.
+                let sel: Vec<u8> = sels[0].iter().zip(&sels[i + 1]).enumerate().map(|(j, (a, b))| if j % 2 == 0 { *a } else { *b }).collect();
+                // build_case derives its universe from (src, endline), so the table covers the
+                // characters the new end-line char can produce, too.
+                let mut next = build_case(&pieces, alias, &sel, salt, &ends[i + 1], ending);
+                if back && i + 1 == n_steps && i > 0 {
+                    next = first.clone();
+                }
+                // Position: somewhere in the calls the model still makes under the steps so far
+                // (the final call that reports the end of input included).
+                let total = model_calls(&first, &steps);
+                let span = total.saturating_sub(from) + 1;
+                let at = from + (span as u64 * fracs[i] as u64 / 1000) as usize;
+                steps.push((at, Cfg::new(&next.cats, next.endline)));
+                raw.push(SwitchStep { after_calls: at, cats: next.cats, endline: next.endline });
+                from = at;
+            }
+            let head = raw.remove(0);
+            SwitchCase { first, second_cats: head.cats, second_endline: head.endline, after_calls: head.after_calls, more: raw }
         })
+}
+
+fn switch_oracle(ctx: &Ctx, c: &SwitchCase, case: &mut Case) -> Verdict {
+    let mut cfgs: Vec<(usize, Cfg)> = vec![(c.after_calls, Cfg::new(&c.second_cats, c.second_endline))];
+    let mut at = c.after_calls;
+    for m in &c.more {
+        at = at.max(m.after_calls);
+        cfgs.push((at, Cfg::new(&m.cats, m.endline)));
+    }
+    let steps: Vec<(usize, &Cfg)> = cfgs.iter().map(|(a, c)| (*a, c)).collect();
+    let mut prev_end = c.first.endline;
+    let mut prev_cats = &c.first.cats;
+    let (mut end_changes, mut table_changes) = (0, 0);
+    for (_, s) in &steps {
+        if s_endline(s) != prev_end {
+            end_changes += 1;
+        }
+        prev_end = s_endline(s);
+    }
+    for cats in std::iter::once(&c.second_cats).chain(c.more.iter().map(|m| &m.cats)) {
+        if cats != prev_cats {
+            table_changes += 1;
+        }
+        prev_cats = cats;
+    }
+    case.class_if(end_changes > 0, "end-line char changes");
+    case.class_if(end_changes > 1, "end-line char changes twice or more");
+    case.class_if(table_changes > 0, "table changes");
+    case.class_if(table_changes > 1, "table changes twice or more");
+    case.class_if(!c.more.is_empty(), "two or more changes of the configuration");
+    case.class_if(c.more.last().map(|m| m.cats == c.first.cats && m.endline == c.first.endline).unwrap_or(false), "last change goes back to the first configuration");
+    let v = oracle(ctx, &c.first, &steps, case);
+    let mut note = describe(&c.first);
+    note.push_str(&format!(" then after {} calls endlinechar={:?} catcodes=[{}]", c.after_calls, c.second_endline, show_cats(&c.second_cats)));
+    for m in &c.more {
+        note.push_str(&format!(" then after {} calls endlinechar={:?} catcodes=[{}]", m.after_calls, m.endline, show_cats(&m.cats)));
+    }
+    case.note = Some(note.clone());
+    match v {
+        Verdict::Fail(m) => Verdict::Fail(format!("{}\nwhole case: {}", m, note)),
+        v => v,
+    }
+}
+
+fn s_endline(c: &Cfg) -> Option<char> {
+    c.endline
 }
 
 // ------------------------------------------------------------------------------------------------
@@ -794,13 +1108,459 @@ fn small_string(mut i: u64) -> String {
 }
 
 // ------------------------------------------------------------------------------------------------
+// vm_path: the repository's own `lexer::Config` (TexlangState -> codes.rs, endlinechar.rs)
+
+/// One source file run by a VM:
+/// `\def\vpsetup{\catcode N=K … \endlinechar=E \vpcollect}\vpsetup` + (LF or one space) + body.
+/// The macro body is tokenised before anything changes, its expansion makes the assignments from a
+/// token list, and `\vpcollect` (a harness command) then pulls unexpanded tokens from the VM until
+/// the input ends, tracing each with `VM::trace`. So everything after `\vpsetup` on the first line
+/// (at least the CR that was appended when that line was read) and all further lines are scanned
+/// under the new table, and all further lines get the new end-line character.
+#[derive(Clone, Debug, Serialize, Deserialize)]
+pub struct VmCase {
+    pub body: String,
+    /// `\catcode` assignments, in this order.
+    pub cats: Vec<(char, u8)>,
+    pub endlinechar: i32,
+    /// The body starts on the first line, one space after `\vpsetup`.
+    pub same_line: bool,
+}
+
+const ENDLINE_VALUES: [i32; 14] = [-1, 0, 13, 65, 94, 127, 128, 255, 256, -2147483647, 2147483647, 0x10FFFE, 0xD800, 10];
+
+/// What TeX reads an `\endlinechar` value as (§360: inactive when <0 or >255). Values >= 128 are
+/// outside the quantifier (ASCII): both "none" and "that character" are accepted.
+fn endline_readings(n: i32) -> Vec<Option<char>> {
+    if n < 0 {
+        vec![None]
+    } else if n < 128 {
+        vec![Some(n as u8 as char)]
+    } else {
+        let mut v = vec![None];
+        if let Some(c) = char::from_u32(n as u32) {
+            v.push(Some(c));
+        }
+        v
+    }
+}
+
+fn vm_strategy() -> impl Strategy<Value = VmCase> {
+    (
+        proptest::collection::vec(piece(), 0..14),
+        proptest::option::weighted(0.25, 0..SUP_ALIASES.len()),
+        proptest::collection::vec(any::<u8>(), 64),
+        any::<u8>(),
+        prop_oneof![10 => (0..ENDLINE_VALUES.len()).prop_map(|i| ENDLINE_VALUES[i]), 4 => 0i32..128, 1 => 128i32..300],
+        0u8..4,
+        any::<bool>(),
+        proptest::bool::weighted(0.25),
+    )
+        .prop_map(|(pieces, alias, sel, salt, endlinechar, ending, explicit_all, same_line)| {
+            let sup = alias.map(|i| SUP_ALIASES[i]).unwrap_or('^');
+            let body = render_source(&pieces, sup, ending);
+            // The table covers the body, the CR that ends the first line, and the end-line
+            // character (for values >= 128: as if it were that character).
+            let e = endline_readings(endlinechar).last().copied().flatten();
+            let uni = universe(&format!("{}\r", body), e);
+            let cats = table_for(&uni, alias.map(|_| sup), &sel, salt, explicit_all);
+            VmCase { body, cats, endlinechar, same_line }
+        })
+}
+
+fn vm_source(c: &VmCase) -> String {
+    let mut s = String::from("\\def\\vpsetup{");
+    for (ch, k) in &c.cats {
+        s.push_str(&format!("\\catcode {}={} ", *ch as u32, k & 15));
+    }
+    s.push_str(&format!("\\endlinechar={} \\vpcollect}}\\vpsetup", c.endlinechar));
+    s.push(if c.same_line { ' ' } else { '\n' });
+    s.push_str(&c.body);
+    s
+}
+
+thread_local! {
+    static COLLECTED: std::cell::RefCell<Vec<Obs>> = const { std::cell::RefCell::new(Vec::new()) };
+}
+
+fn vpcollect_fn(_t: Token, input: &mut texlang::vm::ExecutionInput<crate::texvm::HState>) -> texlang::prelude::Result<()> {
+    use texlang::traits::*;
+    loop {
+        let t = match input.unexpanded().next()? {
+            None => return Ok(()),
+            Some(t) => t,
+        };
+        let tok = tok_of(&t, input.vm().cs_name_interner());
+        let tr = trace_tuple(input.vm().trace(t));
+        COLLECTED.with(|c| c.borrow_mut().push(Obs { tok, trace: Some(tr) }));
+    }
+}
+
+struct VmRun {
+    obs: Vec<Obs>,
+    /// title and trace of the error that ended the run
+    error: Option<(String, Option<(usize, usize, String, String)>)>,
+}
+
+fn run_vm(src: &str) -> Result<VmRun, panics::PanicInfo> {
+    use texcraft_stdext::collections::groupingmap::Scope;
+    panics::catch(|| {
+        let mut vm = crate::texvm::new_vm(&crate::texvm::VmOptions::default());
+        let cs = vm.cs_name_interner_mut().get_or_intern("vpcollect");
+        vm.commands_map.insert(CommandRef::ControlSequence(cs), texlang::command::Command::Execution(vpcollect_fn, None), Scope::Global);
+        COLLECTED.with(|c| c.borrow_mut().clear());
+        if vm.push_source(FILE_NAME.to_string(), src.to_string()).is_err() {
+            panic!("push_source failed");
+        }
+        let r = vm.run::<crate::texvm::Capture>();
+        let error = match r {
+            Ok(()) => None,
+            Err(e) => Some((e.error.title(), e.error.source_code_trace_override().cloned().map(trace_tuple))),
+        };
+        VmRun { obs: COLLECTED.with(|c| std::mem::take(&mut *c.borrow_mut())), error }
+    })
+}
+
+/// TeX on a `vm_path` source: everything up to and including the call of `\vpsetup` is scanned
+/// under the VM's initial configuration (plain table, end-line char CR) and executed, not observed;
+/// the rest under the assigned configuration. Stops after the first invalid character (TeX goes
+/// on after the error; the VM ends the run, which the property does not rule out).
+fn vm_model(src: &str, cfg: &Cfg, reading: Reading) -> (Vec<Item>, model::Scanner) {
+    let plain = Cfg::new(&[], Some('\r'));
+    let mut s = model::Scanner::with_reading(src, Deviations::default(), reading);
+    let mut seen = 0;
+    while seen < 2 {
+        match s.next(&plain, false) {
+            Item::Cs { name, .. } if name == "vpsetup" => seen += 1,
+            Item::EndOfInput => unreachable!("preamble"),
+            _ => {}
+        }
+    }
+    s.stats = model::Stats::default();
+    let mut out = vec![];
+    loop {
+        match s.next(cfg, false) {
+            Item::EndOfInput => break,
+            it => {
+                let stop = matches!(it, Item::Invalid { .. });
+                out.push(it);
+                if stop {
+                    break;
+                }
+            }
+        }
+    }
+    (out, s)
+}
+
+fn vm_oracle(ctx: &Ctx, c: &VmCase, case: &mut Case) -> Verdict {
+    let src = vm_source(c);
+    let readings = endline_readings(c.endlinechar);
+    let note = format!("body={:?} same_line={} \\endlinechar={} \\catcode assignments=[{}]", c.body, c.same_line, c.endlinechar, show_cats(&c.cats));
+    case.note = Some(note.clone());
+    // classes (first reading)
+    let cfg0 = Cfg::new(&c.cats, readings[0]);
+    let (items0, sc0) = vm_model(&src, &cfg0, Reading::default());
+    classify_stats(&sc0.stats, case);
+    case.class(match c.endlinechar {
+        i32::MIN..=-1 => "\\endlinechar negative",
+        0 => "\\endlinechar=0",
+        13 => "\\endlinechar=13",
+        127 => "\\endlinechar=127",
+        1..=126 => "\\endlinechar other ASCII",
+        128..=255 => "\\endlinechar 128..255 (outside the quantifier)",
+        _ => "\\endlinechar >= 256",
+    });
+    case.class_if(c.cats.iter().any(|(ch, _)| !ch.is_ascii()), "\\catcode of a non-ASCII char assigned (sparse map)");
+    case.class_if(c.cats.iter().any(|(ch, k)| !ch.is_ascii() && (*k & 15) != model::OTHER), "non-ASCII char gets a code other than 12");
+    case.class_if(c.body.chars().any(|ch| !ch.is_ascii() && !c.cats.iter().any(|(d, _)| *d == ch)), "non-ASCII char of the body left at the default code");
+    case.class_if(c.cats.iter().any(|(ch, _)| *ch == '\u{7f}' || *ch == '\0'), "\\catcode of NUL or DEL assigned");
+    case.class_if(c.cats.iter().any(|(ch, _)| *ch == '\u{80}'), "\\catcode of U+0080 assigned");
+    case.class_if(c.same_line, "body starts on the line of the assignments");
+    case.class_if(cfg0.code('\r') != model::END_OF_LINE, "CR (end of the first line) no longer cat 5");
+    case.class_if(matches!(items0.last(), Some(Item::Invalid { .. })), "run ended by an invalid character");
+    case.class_if(sc0.lines.len() >= 3, "body of >= 2 lines");
+    let nontrivial = !c.cats.is_empty() || c.endlinechar != 13;
+
+    let run = match run_vm(&src) {
+        Err(info) => {
+            let sig = info.signature();
+            if ctx.known(&sig) {
+                return Verdict::Known(sig);
+            }
+            return Verdict::Fail(format!("panic at {}: {}\n{}\nsource={:?}", info.site(), info.message, note, src));
+        }
+        Ok(r) => r,
+    };
+    let mut first_err = None;
+    let crlf_options: &[bool] = if src.contains("\r\n") { &[false, true] } else { &[false] };
+    for (ri, e, crlf) in readings.iter().enumerate().flat_map(|(ri, e)| crlf_options.iter().map(move |c| (ri, e, *c))) {
+        let cfg = Cfg::new(&c.cats, *e);
+        let (items, sc) = vm_model(&src, &cfg, Reading { crlf_is_line_end: crlf, ..Reading::default() });
+        let (body_items, invalid) = match items.last() {
+            Some(Item::Invalid { ch, span }) => (&items[..items.len() - 1], Some((*ch, *span))),
+            _ => (&items[..], None),
+        };
+        let mut seen = Seen::default();
+        let mut r = compare(body_items, &sc.lines, &run.obs, &mut seen);
+        if r.is_ok() {
+            r = match (&invalid, &run.error) {
+                (None, None) => Ok(()),
+                (None, Some((t, _))) => Err(format!("the run ended with the error {:?}, TeX reads the whole source", t)),
+                (Some((ch, _)), None) => Err(format!("the run ended normally, TeX finds the invalid character {:?}", ch)),
+                (Some((ch, span)), Some((t, tr))) => {
+                    if !t.contains(&format!("(Unicode code point {})", *ch as u32)) {
+                        Err(format!("the run ended with the error {:?}, TeX finds the invalid character {:?} (code point {})", t, ch, *ch as u32))
+                    } else if let Some(tr) = tr {
+                        check_trace(body_items.len(), &Tok::Invalid(*ch), span, &sc.lines[span.line - 1], tr, &mut seen).map_err(|e| format!("invalid-character error: {}", e))
+                    } else {
+                        Ok(())
+                    }
+                }
+            };
+        }
+        match r {
+            Ok(()) => {
+                if crlf {
+                    seen.crlf_alternative += 1;
+                }
+                classify_seen(&seen, case);
+                if readings.len() > 1 {
+                    case.class(if ri == 0 { "\\endlinechar >= 128 read as none" } else { "\\endlinechar >= 128 read as that character" });
+                }
+                return Verdict::pass(nontrivial);
+            }
+            Err(e) => {
+                if first_err.is_none() {
+                    first_err = Some(e);
+                }
+            }
+        }
+    }
+    Verdict::Fail(format!("[vm_path] {}\n{}\nsource={:?}", first_err.unwrap(), note, src))
+}
+
+// ------------------------------------------------------------------------------------------------
+// long_inputs: stack use per `^^` reduction, very long lines, very many lines
+
+#[derive(Clone, Debug, Serialize, Deserialize)]
+pub struct LongCase {
+    /// 0: `\` + chain of n reductions at the first character of a name; 1: the same chain in
+    /// running text; 2: after `\j` (look-ahead path); 3: the chain with hex forms (`^^5e`) at the
+    /// first character of a name; 4: a name of n letters; 5: n lines `a`; 6: a comment of n
+    /// characters, then a line; 7: n blanks between two letters and n trailing blanks.
+    pub shape: u8,
+    pub n: u32,
+}
+
+const LONG_SHAPES: u8 = 8;
+/// The stack a main thread usually has.
+const NORMAL_STACK: usize = 8 << 20;
+
+fn long_source(shape: u8, n: usize) -> String {
+    match shape {
+        0 => format!("\\^^{}+", "\u{1e}^".repeat(n)),
+        1 => format!("^^{}+", "\u{1e}^".repeat(n)),
+        2 => format!("\\j^^{}+", "\u{1e}^".repeat(n)),
+        3 => format!("\\^^{}+", "5e^".repeat(n)),
+        4 => format!("\\{}", "a".repeat(n)),
+        5 => "a\n".repeat(n),
+        6 => format!("a%{}\nb", "é".repeat(n)),
+        _ => format!("a{}b{}\nc", " ".repeat(n), " ".repeat(n)),
+    }
+}
+
+/// (token, line, column) of the first items and of the last item, and the number of items, that
+/// TeX delivers under the plain table with end-line char CR (`report_end_of_line` = false).
+/// Checked against the model for small n.
+fn long_expected(shape: u8, n: usize) -> (Vec<(Tok, usize, Vec<usize>)>, usize) {
+    let sp = |line: usize, cols: Vec<usize>| (Tok::Char(' ', model::SPACE), line, cols);
+    match shape {
+        0 => (vec![(Tok::Cs("k".into()), 1, vec![0])], 1),
+        1 => (vec![(Tok::Char('k', model::LETTER), 1, vec![0, 2 * n + 2]), sp(1, vec![2 * n + 3])], 2),
+        2 => (vec![(Tok::Cs("jk".into()), 1, vec![0])], 1),
+        3 => (vec![(Tok::Cs("k".into()), 1, vec![0])], 1),
+        4 => (vec![(Tok::Cs("a".repeat(n)), 1, vec![0])], 1),
+        5 => (vec![(Tok::Char('a', model::LETTER), 1, vec![0]), sp(1, vec![1]), (Tok::Char('a', model::LETTER), 2, vec![0])], 2 * n),
+        6 => (vec![(Tok::Char('a', model::LETTER), 1, vec![0]), (Tok::Char('b', model::LETTER), 2, vec![0]), sp(2, vec![1])], 3),
+        _ => (
+            vec![
+                (Tok::Char('a', model::LETTER), 1, vec![0]),
+                sp(1, vec![1]),
+                (Tok::Char('b', model::LETTER), 1, vec![n + 1]),
+                sp(1, vec![n + 2, 2 * n + 2]),
+                (Tok::Char('c', model::LETTER), 2, vec![0]),
+                sp(2, vec![1]),
+            ],
+            6,
+        ),
+    }
+}
+
+/// A `lexer::Config` that notes how deep the stack is whenever the lexer asks for a category code.
+struct StackProbe<'a> {
+    inner: &'a Cfg,
+    lowest: std::cell::Cell<usize>,
+}
+
+impl lexer::Config for StackProbe<'_> {
+    #[inline(never)]
+    fn cat_code(&self, c: char) -> CatCode {
+        let marker = 0u8;
+        let a = std::hint::black_box(&marker) as *const u8 as usize;
+        if a < self.lowest.get() {
+            self.lowest.set(a);
+        }
+        lexer::Config::cat_code(self.inner, c)
+    }
+    fn end_line_char(&self) -> Option<char> {
+        self.inner.endline
+    }
+}
+
+/// Lex the whole source (plain table, CR); returns the number of items, the first `keep` and the
+/// last item with their traces, and the deepest stack use seen (bytes below the caller's frame).
+#[inline(never)]
+fn long_lex(src: &str, keep: usize) -> Result<(usize, Vec<Obs>, Option<Obs>, usize), String> {
+    let cfg = Cfg::new(&[], Some('\r'));
+    let probe = StackProbe { inner: &cfg, lowest: std::cell::Cell::new(usize::MAX) };
+    let here = 0u8;
+    let base = std::hint::black_box(&here) as *const u8 as usize;
+    let mut tracer = trace::Tracer::default();
+    let mut interner = CsNameInterner::default();
+    let range = tracer.register_source_code(None, trace::Origin::File(FILE_NAME.into()), src);
+    let mut lx = lexer::Lexer::new(src.to_string(), range);
+    let bound = 2 * src.chars().count() + 8;
+    let mut n = 0usize;
+    let mut first = vec![];
+    let mut last: Option<Token> = None;
+    loop {
+        match lx.next(&probe, &mut interner, false) {
+            lexer::Result::Token(t) => {
+                if n < keep {
+                    first.push(Obs { tok: tok_of(&t, &interner), trace: Some(trace_tuple(tracer.trace(t, &interner))) });
+                }
+                last = Some(t);
+                n += 1;
+            }
+            lexer::Result::InvalidCharacter(c, _) => return Err(format!("invalid character {:?}", c)),
+            lexer::Result::EndOfLine => return Err("EndOfLine marker although report_end_of_line is false".into()),
+            lexer::Result::EndOfInput => break,
+        }
+        if n > bound {
+            return Err("no termination".into());
+        }
+    }
+    let last = last.map(|t| Obs { tok: tok_of(&t, &interner), trace: Some(trace_tuple(tracer.trace(t, &interner))) });
+    Ok((n, first, last, base.saturating_sub(probe.lowest.get())))
+}
+
+fn long_check(shape: u8, n: usize) -> Result<usize, String> {
+    let src = long_source(shape, n);
+    let (want, want_n) = long_expected(shape, n);
+    let (got_n, first, _last, used) = long_lex(&src, want.len())?;
+    if got_n != want_n {
+        return Err(format!("{} items delivered, TeX delivers {}", got_n, want_n));
+    }
+    for (i, ((tok, line, cols), o)) in want.iter().zip(&first).enumerate() {
+        if *tok != o.tok {
+            let show = |t: &Tok| {
+                let s = show_tok(t);
+                if s.len() > 60 {
+                    format!("{}… ({} bytes)", s.chars().take(40).collect::<String>(), s.len())
+                } else {
+                    s
+                }
+            };
+            return Err(format!("item {} is {}, TeX delivers {}", i, show(&o.tok), show(tok)));
+        }
+        let (ln, col, _, _) = o.trace.as_ref().unwrap();
+        if ln != line || !cols.contains(col) {
+            return Err(format!("item {} ({}) traced to line {} column {}, it started at line {} column {:?}", i, show_tok(tok).chars().take(40).collect::<String>(), ln, col, line, cols));
+        }
+    }
+    Ok(used)
+}
+
+fn long_oracle(ctx: &Ctx, c: &LongCase, case: &mut Case) -> Verdict {
+    let shape = c.shape % LONG_SHAPES;
+    let n = c.n as usize;
+    case.note = Some(format!("shape {} n {}: {:?}", shape, n, long_source(shape, 3)));
+    case.class(["chain at first char of name", "chain in running text", "chain on the look-ahead path of a name", "hex chain at first char of name", "long name", "many lines", "long non-ASCII comment", "long runs of blanks"][shape as usize]);
+    // 1. The closed-form expectation is what the model says (small sizes).
+    for m in [1usize, 2, 7, 200] {
+        let src = long_source(shape, m);
+        let cfg = Cfg::new(&[], Some('\r'));
+        let run = model_items(&src, &cfg, &[], false, Deviations::default(), Reading::default());
+        let (want, want_n) = long_expected(shape, m);
+        let ok = run.items.len() == want_n
+            && want.iter().zip(&run.items).all(|((tok, line, cols), it)| {
+                let (t, span) = item_tok(it);
+                let span = span.unwrap();
+                t == *tok && span.line == *line && cols.iter().all(|c| span.allows(*c))
+            });
+        if !ok {
+            return Verdict::Fail(format!("CALIBRATION: closed-form expectation for long input shape {} n {} disagrees with the reference scanner", shape, m));
+        }
+        // and the ordinary oracle on the same input
+        if let Verdict::Fail(m) = oracle(ctx, &LexCase { src, cats: vec![], endline: Some('\r') }, &[], &mut Case::default()) {
+            return Verdict::Fail(m);
+        }
+    }
+    // 2. Stack use must not grow with the size of the input: every frame per character / per
+    //    reduction is a crash (stack overflow, not even a panic) for a long enough line.
+    let measure = |m: usize| panics::catch(|| long_check(shape, m));
+    let (small, big) = (200usize, 2000usize);
+    let (a, b) = match (measure(small), measure(big)) {
+        (Ok(Ok(a)), Ok(Ok(b))) => (a, b),
+        (Err(p), _) | (_, Err(p)) => return Verdict::Fail(format!("panic at {}: {} (long input shape {} n<={})", p.site(), p.message, shape, big)),
+        (Ok(Err(e)), _) | (_, Ok(Err(e))) => return Verdict::Fail(format!("long input shape {} n<={}: {}", shape, big, e)),
+    };
+    let growth = b.saturating_sub(a);
+    if growth >= (big - small) * 8 {
+        let per = growth / (big - small);
+        return Verdict::Fail(format!(
+            "stack use grows with the input: {} bytes at n={}, {} bytes at n={} (about {} bytes per step) for sources of the form {:?}: a line with about {} steps overflows a normal {} MiB stack, which aborts the process (lexing must not even panic)",
+            a,
+            small,
+            b,
+            big,
+            per,
+            long_source(shape, 2),
+            NORMAL_STACK / per.max(1),
+            NORMAL_STACK >> 20
+        ));
+    }
+    case.class("stack use independent of input size (n=200 vs n=2000)");
+    // 3. The real size, on a normal stack.
+    let r = std::thread::scope(|s| {
+        std::thread::Builder::new()
+            .stack_size(NORMAL_STACK)
+            .spawn_scoped(s, || {
+                crate::engine::panics::install_hook();
+                panics::catch(|| long_check(shape, n))
+            })
+            .expect("spawn")
+            .join()
+    });
+    match r {
+        Ok(Ok(Ok(_))) => Verdict::pass(true),
+        Ok(Ok(Err(e))) => Verdict::Fail(format!("long input shape {} n {}: {}", shape, n, e)),
+        Ok(Err(p)) => Verdict::Fail(format!("panic at {}: {} (long input shape {} n {})", p.site(), p.message, shape, n)),
+        Err(_) => Verdict::Fail(format!("the lexing thread died (long input shape {} n {})", shape, n)),
+    }
+}
+
+// ------------------------------------------------------------------------------------------------
 
 pub fn run(ctx: &Ctx) {
-    ctx.rule("cases = (source text, category-code table, \\endlinechar); random sources are concatenations of pieces over \\ { } $ & # ^ _ ~ % space letters digits LF CR NUL DEL TAB é 日 😀 with injected ^^X forms (^^M ^^? ^^@ ^^5a ^^zz ^^é …, at line ends, inside/after control sequence names, nested), trailing blanks, blank lines, CRLF, with/without final newline; every character that occurs or can result from a ^^ reduction gets the plain-TeX code with p=0.6 and a uniform code 0..15 with p=0.4; \\endlinechar in {none, CR, letter, the superscript char, uniform ASCII, é}; tokens of Lexer::next (both report_end_of_line modes) compared one for one with a transcription of TeX §343-356 and every token traced with Tracer::trace. non-trivial = the table differs from plain TeX on a character that occurs in the source or as end-line char, or the source contains a doubled superscript character (^^), or a non-ASCII character, or a line with trailing blanks; distinct = by (source, table, endlinechar)");
-    ctx.assume("lines are split at LF only and right-trimmed of U+0020 only (what lexer.rs documents; TeX's input_ln removes trailing spaces); CR is an ordinary character of the line");
+    ctx.rule("cases = (source text, category-code table, \\endlinechar); random sources are concatenations of pieces over \\ { } $ & # ^ _ ~ % space letters digits LF CR NUL DEL TAB é 日 😀 with injected ^^X forms (^^M ^^? ^^@ ^^5a ^^zz ^^é …, at line ends, inside/after control sequence names, chains of up to 14 reductions in running text / at the first character of a name / after a name's first letter), long names and long runs of blanks, trailing blanks, blank lines, CR LF, with/without final newline; every character that occurs or can result from a ^^ reduction gets the plain-TeX code with p=0.6 and a uniform code 0..15 with p=0.4; \\endlinechar in {none, CR, letter, the superscript char, uniform ASCII, NUL, DEL, LF, space, hex digit}; tokens of Lexer::next (both report_end_of_line modes) compared one for one with a transcription of TeX §343-356 and every token traced with Tracer::trace; config_switch changes table and end-line char up to three times at call numbers spread over the whole scan; vm_path makes the assignments with \\catcode / \\endlinechar in TeX source run by a VM (\\endlinechar in {-1, 0, 13, 65, 94, 127, 128, 255, 256, extremes, uniform ASCII}) and compares the unexpanded tokens the VM delivers and VM::trace of each; long_inputs lexes chains of 10^4..10^6 reductions, names, comments, blank runs and line counts of that size on an 8 MiB stack and measures that stack use does not grow with the input. non-trivial = the table differs from plain TeX on a character that occurs in the source or as end-line char, or the source contains a doubled superscript character (^^), or a non-ASCII character, or a line with trailing blanks (vm_path: some assignment is made); distinct = by (source, table, endlinechar)");
+    ctx.assume("lines are split at LF and right-trimmed of U+0020 only (what lexer.rs documents; TeX's input_ln removes trailing spaces); a CR directly before the LF is either the last character of the line or part of the line terminator (tex.web 31 leaves line ends to the system; lexer.rs documents the second, implements the first): one reading per source is accepted; any other CR is an ordinary character");
     ctx.assume("^^xy with two lower-case hex digits stands for the character with that code point (0..255), the Unicode reading of TeX's 8-bit hex_to_cur_chr");
-    ctx.assume("trace column tolerance: exact for ordinary characters and for control sequences (column of the escape character); any column of the consumed source characters for the result of a ^^ reduction; [trimmed length, line length] for the appended end-line character, which has no source character");
-    ctx.assume("EndOfLine is reported after the next line has been read (the public API's order); n lines give n-1 markers");
+    ctx.assume("trace column: exact for ordinary characters and for control sequences (column of the escape character); for the result of a ^^ reduction the column of the first or of the last source character of the form (the token starts at the first; the implementation's keys and the repository's table tests point at the last); for the appended end-line character, which has no source character, the trimmed line length or the position of the line terminator. SourceCodeTrace::value is not judged (the property names line number, column and line text)");
+    ctx.assume("report_end_of_line: n lines give n-1 EndOfLine markers; under a configuration that changes during the scan the marker may come after the next line has been read (the public API's order) or before it (TeX's \\read order, tex.web 483-486); with a fixed configuration the two cannot be told apart");
+    ctx.assume("a non-ASCII end-line character and \\endlinechar values 128.. are outside the quantifier: compared against both readings (none / that character), never judged beyond panics in vm_path");
+    ctx.assume("vm_path: the VM starts with the plain-TeX codes for the characters of the fixed preamble text and with \\endlinechar=13; an invalid character ends the VM's run with an error naming it (TeX reports and goes on; the property does not say which)");
 
     // Calibration: the repository's own table tests.
     let golds = model::goldens();
@@ -822,21 +1582,27 @@ pub fn run(ctx: &Ctx) {
             let (cats, endline) = &tables[(i / per_table) as usize];
             LexCase { src: small_string(i % per_table), cats: cats.clone(), endline: *endline }
         },
-        |c: &LexCase, case| oracle(ctx, c, None, case),
+        |c: &LexCase, case| oracle(ctx, c, &[], case),
     );
 
     // Random search.
-    let n = ctx.tier.pick(800_000u64, 10_000_000u64);
-    run_generated(ctx, "random", n, || case_strategy(16), |c: &LexCase, case| oracle(ctx, c, None, case));
-    let n = ctx.tier.pick(80_000u64, 1_000_000u64);
-    run_generated(ctx, "random_long", n, || case_strategy(60), |c: &LexCase, case| oracle(ctx, c, None, case));
-    let n = ctx.tier.pick(160_000u64, 2_000_000u64);
-    run_generated(ctx, "config_switch", n, switch_strategy, |c: &SwitchCase, case| {
-        let second = Cfg::new(&c.second_cats, c.second_endline);
-        case.class_if(c.first.endline != c.second_endline, "end-line char changes");
-        case.class_if(c.first.cats != c.second_cats, "table changes");
-        let v = oracle(ctx, &c.first, Some((&second, c.after_calls)), case);
-        case.note = Some(format!("{} then after {} calls endlinechar={:?} catcodes=[{}]", describe(&c.first), c.after_calls, c.second_endline, c.second_cats.iter().map(|(ch, k)| format!("{:?}={}", ch, k)).collect::<Vec<_>>().join(" ")));
-        v
-    });
+    let n = ctx.tier.pick(700_000u64, 10_000_000u64);
+    run_generated(ctx, "random", n, || case_strategy(16), |c: &LexCase, case| oracle(ctx, c, &[], case));
+    let n = ctx.tier.pick(70_000u64, 1_000_000u64);
+    run_generated(ctx, "random_long", n, || case_strategy(60), |c: &LexCase, case| oracle(ctx, c, &[], case));
+    let n = ctx.tier.pick(120_000u64, 2_000_000u64);
+    run_generated(ctx, "config_switch", n, switch_strategy, |c: &SwitchCase, case| switch_oracle(ctx, c, case));
+    let n = ctx.tier.pick(16_000u64, 600_000u64);
+    run_generated(ctx, "vm_path", n, vm_strategy, |c: &VmCase, case| vm_oracle(ctx, c, case));
+
+    // Long inputs on a normal stack.
+    let sizes: Vec<u32> = ctx.tier.pick(vec![10_000, 100_000], vec![10_000, 100_000, 1_000_000, 3_000_000]);
+    let mut long = vec![];
+    for shape in 0..LONG_SHAPES {
+        for &n in &sizes {
+            // tracing costs time linear in the offset: keep the many-lines shape moderate
+            long.push(LongCase { shape, n: if shape == 5 { n.min(300_000) } else { n } });
+        }
+    }
+    run_list(ctx, "long_inputs", long, |c: &LongCase, case| long_oracle(ctx, c, case));
 }
